@@ -152,19 +152,28 @@ def check(ctx, rep):
     # ---- R05.c
     check_pending_wakers(rep, 'R05.c', core, time)
     # ---- R05.d / R05.e legacy futures
+    check_legacy_futures(rep, 'R05.d', 'R05.e', core)
+    rep.assume('futures::channel::mpsc wakes its registered receiver task on send and on sender drop (third-party contract)')
+    rep.assume('AtomicWaker::register/wake pairing is race-free (futures contract)')
+
+
+def check_legacy_futures(rep, rid_d, rid_e, core):
+    """legacy shell futures: slot check and waker store under one lock; the resolve closure delivers and takes the waker under that
+    lock and wakes it on every path"""
     for mod, slot in (('shell_request', 'result'), ('shell_stream', 'receiver')):
         pf = [f for f in hand_written_polls(core) if ('capability::%s::' % mod) in f.npath]
         if len(pf) != 1:
-            rep.missing('R05.d', 'legacy %s poll' % mod)
+            rep.missing(rid_d, 'legacy %s poll' % mod)
             continue
         f = pf[0]
         locks = list(f.calls('std::sync::poison::mutex::Mutex::lock'))
         regions = c03.lock_regions(f, ['std::sync::poison::mutex::Mutex::lock'])
         slot_reads = [bb for bb, t in f.calls() if slot in c01.field_of_receiver(f, t['args'][0]) if t['args']]
         waker_stores = [bb for bb, i, s in f.stmts('assign') if s['d']['p'] and s['d']['p'][-1] == '.waker']
+        waker_stores += [bb for bb, t in f.calls('core::option::Option::replace', 'core::option::Option::insert') if t['args'] and 'waker' in c01.field_of_receiver(f, t['args'][0])]
         ok = len(locks) == 1 and len(regions) == 1 and slot_reads and waker_stores and \
             all(b in regions[0][3] for b in slot_reads + waker_stores)
-        rep.expect('R05.d', ok, '%s|poll-one-lock' % mod, 'the slot is read and the waker stored inside one lock region',
+        rep.expect(rid_d, ok, '%s|poll-one-lock' % mod, 'the slot is read and the waker stored inside one lock region',
                    'legacy %s poll: the check of `%s` and the store of the waker are not under one lock (a resolution in between is lost)' % (mod, slot))
         # the resolve closure
         host = [g for g in core.built if g.kind == 'AssocFn' and ('capability::%s::' % mod) in g.npath and g.name in ('request_from_shell', 'stream_from_shell')]
@@ -175,7 +184,7 @@ def check(ctx, rep):
                     if o.kind == 'agg' and o.stmt['rv'].get('ak') == 'closure':
                         clo = core.by_exact(o.stmt['rv']['def'])
         if clo is None:
-            rep.missing('R05.d', 'legacy %s resolve closure' % mod)
+            rep.missing(rid_d, 'legacy %s resolve closure' % mod)
             continue
         g = clo
         regions = c03.lock_regions(g, ['std::sync::poison::mutex::Mutex::lock'])
@@ -186,16 +195,14 @@ def check(ctx, rep):
         takes = [bb for bb, t in g.calls('core::option::Option::take') if 'waker' in c01.field_of_receiver(g, t['args'][0])]
         wakes = [(bb, t) for bb, t in g.calls('core::task::wake::Waker::wake', 'core::task::wake::Waker::wake_by_ref')]
         ok = len(regions) == 1 and delivers and takes and all(b in regions[0][3] for b in delivers + takes)
-        rep.expect('R05.d', ok, '%s|resolve-one-lock' % mod, 'the delivery and the take of the waker happen under the same lock',
+        rep.expect(rid_d, ok, '%s|resolve-one-lock' % mod, 'the delivery and the take of the waker happen under the same lock',
                    'legacy %s resolve closure: delivery and waker take are not under one lock' % mod)
         rets = g.return_blocks()
         after = all(g.all_paths_pass(d, rets, via_blocks=takes) for d in delivers) if delivers and takes else False
         woken = len(wakes) >= 1 and all(any(o.kind == 'call' and o.bb in takes for o in origins(g, t['args'][0])) for bb, t in wakes)
-        rep.expect('R05.e', after and woken, '%s|delivers-then-wakes' % mod,
+        rep.expect(rid_e, after and woken, '%s|delivers-then-wakes' % mod,
                    'every path after the delivery takes the stored waker and wakes it when present',
                    'legacy %s resolve closure can deliver a value without waking the stored waker' % mod)
-    rep.assume('futures::channel::mpsc wakes its registered receiver task on send and on sender drop (third-party contract)')
-    rep.assume('AtomicWaker::register/wake pairing is race-free (futures contract)')
 
 
 def check_register_before_look(rep, rid, core):
@@ -223,11 +230,13 @@ def check_register_before_look(rep, rid, core):
                    'Command::poll_next reads its channels without having run its tasks')
 
 
-def check_pending_wakers(rep, rid, core, time):
+def check_pending_wakers(rep, rid, core, time, only=None, floor=7):
     """every path of a hand-written poll that returns Pending has kept the waker of THIS poll or follows a delegated Pending"""
-    polls = hand_written_polls(core) + hand_written_polls(time)
-    if len(polls) < 7:
-        rep.bad(rid, 'poll-sites', 'expected at least 7 hand-written poll functions, found %d: %s' % (len(polls), [f.path for f in polls]))
+    polls = hand_written_polls(core) + (hand_written_polls(time) if time is not None else [])
+    if only is not None:
+        polls = [f for f in polls if only(f)]
+    if len(polls) < floor:
+        rep.bad(rid, 'poll-sites', 'expected at least %d hand-written poll functions, found %d: %s' % (floor, len(polls), [f.path for f in polls]))
     for f in polls:
         cx = cx_param(f)
         if cx is None:
